@@ -21,9 +21,10 @@
 (* crash hooks of the verif build.                                         *)
 (***************************************************************************)
 EXTENDS Integers, Sequences, TLC, FiniteSets, Json
-CONSTANTS Limit, MaxOps, EmitFrom,
+CONSTANTS Limit,        \* the limit the first session starts with
+          Limits,       \* the values the user may set the limit to later ((setq *repl-history-limit* n): History.SetLimit)
+          MaxOps, EmitFrom,
           TornRemoved   \* Load removes an unterminated fragment from the end of the file
-Max == Limit + (Limit \div 10)
 None == <<-1>>
 VARIABLES mem,      \* in-memory forms of the running process
           file,     \* complete lines of the history file
@@ -32,14 +33,16 @@ VARIABLES mem,      \* in-memory forms of the running process
           ref,      \* reference: what an uninterrupted session would hold
           refPrev,  \* reference before the operation in progress
           pc,       \* [op |-> "idle"] or [op, step, todo]
+          limit,    \* the configured limit (a saved setting: it survives restarts and crashes)
           nextForm, crashed, hist
-vars == <<mem, file, torn, tmp, ref, refPrev, pc, nextForm, crashed, hist>>
+vars == <<mem, file, torn, tmp, ref, refPrev, pc, limit, nextForm, crashed, hist>>
+Max == limit + (limit \div 10)
 
 Init == /\ mem = <<>> /\ file = <<>> /\ torn = FALSE /\ tmp = None /\ ref = <<>> /\ refPrev = <<>>
-        /\ pc = [op |-> "idle"] /\ nextForm = 1 /\ crashed = FALSE /\ hist = <<>>
+        /\ pc = [op |-> "idle"] /\ limit = Limit /\ nextForm = 1 /\ crashed = FALSE /\ hist = <<>>
 
 LastN(s, n) == IF Len(s) <= n THEN s ELSE SubSeq(s, Len(s) - n + 1, Len(s))
-RefAdd(r, f) == LET r2 == Append(r, f) IN IF Max <= Len(r2) THEN LastN(r2, Limit) ELSE r2
+RefAdd(r, f) == LET r2 == Append(r, f) IN IF Max <= Len(r2) THEN LastN(r2, limit) ELSE r2
 H(rec) == Append(hist, rec)
 Idle == pc.op = "idle" /\ Len(hist) < MaxOps
 
@@ -50,15 +53,20 @@ StartAdd == /\ Idle
                /\ refPrev' = ref /\ ref' = RefAdd(ref, f)
                /\ hist' = H([op |-> "add", f |-> f, a |-> 0, b |-> 0])
                /\ IF Max <= Len(m2)
-                  THEN /\ mem' = LastN(m2, Limit)
-                       /\ pc' = [op |-> "compact", step |-> "open", todo |-> LastN(m2, Limit), k |-> 0]
+                  THEN /\ mem' = LastN(m2, limit)
+                       /\ pc' = [op |-> "compact", step |-> "open", todo |-> LastN(m2, limit), k |-> 0]
                   ELSE /\ mem' = m2
                        /\ pc' = [op |-> "append", step |-> "open", todo |-> <<f>>, k |-> 0]
-               /\ UNCHANGED <<file, torn, tmp, crashed>>
+               /\ UNCHANGED <<file, torn, tmp, crashed, limit>>
+\* the limit is changed: nothing else happens now (History.SetLimit); what is kept is cut back to the new limit by the next
+\* form that is entered once the size has reached the new limit + 10 %, in memory and in the file alike
+SetLimit(n) == /\ Idle /\ n # limit /\ limit' = n
+               /\ hist' = H([op |-> "limit", f |-> n, a |-> 0, b |-> 0])
+               /\ UNCHANGED <<mem, file, torn, tmp, ref, refPrev, pc, nextForm, crashed>>
 \* the same form again is not entered a second time
 AddSame == /\ Idle /\ mem # <<>>
            /\ hist' = H([op |-> "add", f |-> mem[Len(mem)], a |-> 0, b |-> 0])
-           /\ UNCHANGED <<mem, file, torn, tmp, ref, refPrev, pc, nextForm, crashed>>
+           /\ UNCHANGED <<mem, file, torn, tmp, ref, refPrev, pc, nextForm, crashed, limit>>
 StepAppend == /\ pc.op = "append"
               /\ \/ /\ pc.step = "open" /\ pc' = [pc EXCEPT !.step = "write"] /\ UNCHANGED <<file, torn>>
                  \/ /\ pc.step = "write"
@@ -66,7 +74,7 @@ StepAppend == /\ pc.op = "append"
                     /\ file' = IF torn THEN Append(file, -pc.todo[1]) ELSE file \o pc.todo
                     /\ torn' = FALSE
                     /\ pc' = [op |-> "idle"]
-              /\ UNCHANGED <<mem, tmp, ref, refPrev, nextForm, crashed, hist>>
+              /\ UNCHANGED <<mem, tmp, ref, refPrev, nextForm, crashed, hist, limit>>
 StepCompact == /\ pc.op = "compact"
                /\ \/ /\ pc.step = "open"         \* O_TRUNC|O_CREATE: a leftover tmp is emptied
                      /\ tmp' = <<>>
@@ -78,7 +86,7 @@ StepCompact == /\ pc.op = "compact"
                      /\ pc' = [pc EXCEPT !.step = "rename"] /\ UNCHANGED <<file, torn, tmp>>
                   \/ /\ pc.step = "rename"
                      /\ file' = tmp /\ torn' = FALSE /\ tmp' = None /\ pc' = [op |-> "idle"]
-               /\ UNCHANGED <<mem, ref, refPrev, nextForm, crashed, hist>>
+               /\ UNCHANGED <<mem, ref, refPrev, nextForm, crashed, hist, limit>>
 \* (clear-history a b): the entries a..b, counted from the most recent one (0 = the newest, as Nth does), are
 \* dropped, the file is truncated and rewritten
 Without(s, a, b) == LET n == Len(s)  lo == n - b  hi == n - a IN     \* 1-based positions lo..hi are removed
@@ -88,13 +96,13 @@ Clear(a, b) == /\ Idle /\ a <= b /\ b < Len(mem)
                   /\ mem' = keep /\ refPrev' = ref /\ ref' = Without(ref, a, b)
                   /\ pc' = [op |-> "clear", step |-> "open", todo |-> keep, k |-> 0]
                /\ hist' = H([op |-> "clear", f |-> 0, a |-> a, b |-> b])
-               /\ UNCHANGED <<file, torn, tmp, nextForm, crashed>>
+               /\ UNCHANGED <<file, torn, tmp, nextForm, crashed, limit>>
 StepClear == /\ pc.op = "clear"
              /\ \/ /\ pc.step = "open" /\ file' = <<>> /\ torn' = FALSE /\ pc' = [pc EXCEPT !.step = "write"]   \* O_TRUNC
                 \/ /\ pc.step = "write" /\ pc.todo # <<>>
                    /\ file' = Append(file, Head(pc.todo)) /\ pc' = [pc EXCEPT !.todo = Tail(pc.todo), !.k = pc.k + 1] /\ UNCHANGED torn
                 \/ /\ pc.step = "write" /\ pc.todo = <<>> /\ pc' = [op |-> "idle"] /\ UNCHANGED <<file, torn>>
-             /\ UNCHANGED <<mem, tmp, ref, refPrev, nextForm, crashed, hist>>
+             /\ UNCHANGED <<mem, tmp, ref, refPrev, nextForm, crashed, hist, limit>>
 \* what the next session loads: the complete lines (an unterminated fragment is not a line)
 Loaded == file
 \* the process dies before the pending file-system step; with tornWrite in the middle of a pending write
@@ -109,15 +117,28 @@ Crash(tornWrite) ==
     /\ mem' = Loaded /\ pc' = [op |-> "idle"] /\ crashed' = TRUE
     /\ ref' = Loaded          \* the reference continues from what was loaded
     /\ hist' = H([op |-> "crash", f |-> IF tornWrite THEN 1 ELSE 0, a |-> 0, b |-> 0] @@ [point |-> pc.op \o "." \o pc.step, nth |-> pc.k + 1])
-    /\ UNCHANGED <<refPrev, nextForm>>
+    /\ UNCHANGED <<refPrev, nextForm, limit>>
 Restart == /\ Idle /\ mem' = Loaded /\ hist' = H([op |-> "restart", f |-> 0, a |-> 0, b |-> 0])
-           /\ UNCHANGED <<file, torn, tmp, ref, refPrev, pc, nextForm, crashed>>
+           /\ UNCHANGED <<file, torn, tmp, ref, refPrev, pc, nextForm, crashed, limit>>
 Next == \/ StartAdd \/ AddSame \/ StepAppend \/ StepCompact \/ StepClear \/ Restart
         \/ \E a \in 0..2, b \in 0..2 : Clear(a, b)
         \/ \E t \in BOOLEAN : Crash(t)
+        \/ \E n \in Limits : SetLimit(n)
+\* ---- directed histories: the limit is lowered below the number of forms held, a few forms are entered, restart --------------
+\* (with the 10 % slack of a limit of 10 or more the forms entered next are appended to the file before a compaction is due)
+OpsOf(sc) == sc
+Scripts == {[i \in 1..k |-> "add"] \o <<"limit">> \o [i \in 1..j |-> "add"] \o <<"restart">> \o [i \in 1..e |-> "add"] \o <<"restart">> :
+              k \in (Limit \div 2)..(Limit + 1), j \in 0..3, e \in 0..2}
+NextScript == \/ pc.op # "idle" /\ (StepAppend \/ StepCompact \/ StepClear)
+              \/ /\ pc.op = "idle"
+                 /\ \E sc \in Scripts :
+                      /\ Len(hist) < Len(sc) /\ \A i \in 1..Len(hist) : hist[i].op = sc[i]
+                      /\ LET o == sc[Len(hist) + 1] IN
+                         IF o = "add" THEN StartAdd ELSE IF o = "restart" THEN Restart ELSE \E n \in Limits : SetLimit(n)
+EmitScript == pc.op # "idle" \/ hist = <<>> \/ hist[Len(hist)].op # "restart" \/ PrintT(ToJson([hist |-> hist]))
 Emit == pc'.op # "idle" \/ Len(hist') < EmitFrom \/ PrintT(ToJson([hist |-> hist']))
 EmitState == pc.op # "idle" \/ Len(hist) < EmitFrom \/ PrintT(ToJson([hist |-> hist]))
-View == <<mem, file, torn, tmp, pc, crashed>>
+View == <<mem, file, torn, tmp, pc, crashed, limit>>
 
 IsPrefix(a, b) == Len(a) <= Len(b) /\ SubSeq(b, 1, Len(a)) = a
 IsSuffix(a, b) == Len(a) <= Len(b) /\ SubSeq(b, Len(b) - Len(a) + 1, Len(b)) = a
